@@ -16,7 +16,7 @@ import numpy as np
 import z3
 from scipy.constants import k as kB, N_A
 
-from symx.core import Engine, SR, SB, noprint, uf_exp
+from symx.core import sym_float, Engine, SR, SB, noprint, uf_exp
 from symx.arr import sarr, SArr
 from symx import sparse as sp
 from symx.npproxy import NPProxy
@@ -217,7 +217,7 @@ def run_shape(shape):
         pio = ProxyIO(store)
         with bound(F, bmat=sp.bmat, kron=sp.kron, identity=sp.identity, eye=sp.eye, block_diag=sp.block_diag, coo_matrix=sp.coo_array, csr_matrix=sp.csr_array, csc_matrix=sp.csc_array, csr_array=sp.csr_array, csc_array=sp.csc_array, coo_array=sp.coo_array, diags=sp.diags, print=noprint, np=proxy), bound(TR, np=proxy, print=noprint), \
                 bound(Vm, coo_array=sp.coo_array, print=noprint, np=proxy), bound(IO, sparse=store, np=pio), \
-                bound(T, coo_array=sp.coo_array, csr_array=sp.csr_array, print=noprint):
+                bound(T, coo_array=sp.coo_array, csr_array=sp.csr_array, csc_array=sp.csc_array, print=noprint, np=proxy, float=sym_float):
             stub = FullSphereStub(n_b, sp, lambda k: bool(SB(pat[k])), lambda p, k: SR(val[p][k]), lambda i: SR(vols[i]), lambda l: sarr(l)) if n_b > 1 else None
             fg = make_fullgrid(F, TR, Vm, n_b, o, sarr([SR(x) for x in r]), SR(f), G, stub)
             w = object.__new__(IO.GridWriter)
